@@ -18,6 +18,7 @@
 //	         error is rendered by the default or a custom ErrorHandler or answered by a downstream
 //	         middleware, cookies are set in a downstream middleware and in the final handler,
 //	         before and after the response-writing call, one, two, or one name twice
+//	layers F-N (dims.go), R (relkeys.go), T (attrs.go: attributes of the response cookies and the call that sets them)
 //
 // crypto/rand.Reader is replaced by a counter stream that is re-seeded per work item,
 // work items are sharded over sequential worker processes: results do not depend on
@@ -1470,7 +1471,7 @@ func main() {
 	// layer T (attrs.go): appended behind layers F-N for the same reason
 	menuT := []string{valuesAll[2], valuesAll[5], valuesAll[0]}
 	keysT := keysB
-	if !quick {
+	if !quick || os.Getenv("C20_T_FULL") != "" { // development aid: the thorough tier's layer T inside a quick run
 		menuT = []string{valuesAll[2], valuesAll[5], valuesAll[0], valuesAll[1], longValue(300)}
 		keysT = []int{0, 1, 2, 3, 4, 5}
 	}
@@ -1587,6 +1588,13 @@ func main() {
 			"attr_exchanges", "attr_nonempty_value_with_removal_attributes", "attr_replay_ok"} {
 			if c[k] == 0 {
 				core.Fatal("vacuous exploration: mechanism counter %s is 0", k)
+			}
+		}
+	}
+	if len(r.P.Caps) == 0 { // counted before anything is judged: must be there whatever the run found
+		for _, k := range []string{"attr_exchanges", "attr_nonempty_value_with_removal_attributes"} {
+			if c[k] == 0 {
+				core.Fatal("vacuous exploration: counter %s is 0", k)
 			}
 		}
 	}
